@@ -14,7 +14,8 @@
         The sign of a zero is not modelled (-0.0 = +0.0): it cannot reach an integer
         coordinate (`z + b` and `round(z) as isize` do not depend on it).
         libm's sin/cos are NOT modelled: [from_instance_f]/[rotate_f] take the two doubles as
-        arguments; for the right angles they come from the generated table Gen/LibmGen.v.
+        arguments; for the right angles they come from the generated table Gen/LibmGen.v
+        (read off the repository's own `Transform::rotate` / `from_instance` on every run).
 
     [from_instance] is the function as it stands AFTER the proposed repair (reflected
     placements negate the second *column* of the rotation matrix); [from_instance_orig] is
@@ -249,7 +250,7 @@ Definition bitlen (m : Z) : Z := if m =? 0 then 0 else Z.log2 (Z.abs m) + 1.
 
 (** 2^k, m / 2^k (floor) and m mod 2^k for k >= 0, written with shifts and masks so that the
     model evaluates quickly inside Coq (lemmas [pow2_eq], [divp2_eq], [modp2_eq] in
-    Transform_proofs.v state that they are the arithmetic operations) *)
+    TransformFloat_proofs.v state that they are the arithmetic operations) *)
 Definition pow2 (k : Z) : Z := Z.shiftl 1 k.
 Definition divp2 (m k : Z) : Z := Z.shiftr m k.
 Definition modp2 (m k : Z) : Z := Z.land m (Z.ones k).
